@@ -235,6 +235,10 @@ func runC05(c *Ctx, r *Report) {
 	r.Doc("R-C05.2", "the index only grows: no deletion, key list only extended, Entries reassigned only on nil-init or bounded merge, insertion only of absent keys")
 	r.Doc("R-C05.3", "exported accessors never return the live Entries/Next map")
 	r.Doc("R-C05.4", "installing a new entry replaces the heads atomically with reading them (one critical section)")
+	r.Doc("R-C05.5", "a refused append or merge changes nothing: partial state left by a failed operation makes entries vanish from later views")
+	refusedOperationsLeaveNoTrace(c, r, "R-C05.5")
+	r.Doc("R-C05.6", "the head scan used by merges and loaders is exact: an entry wrongly treated as referenced (or a head never examined) disappears from the views although it is still indexed")
+	findHeadsShape(c, r, "R-C05.6")
 	appendSingleSection(c, r, "R-C05.4", "a merge or append landing in the window has its heads overwritten: entries stay in the index but disappear from Values(), so successive views are not subsequences")
 	fe := &freshEngine{p: p, cg: c.CG, mutators: map[string]bool{}, freshRet: map[*Fn]int{}}
 	for _, it := range []string{"IPFSLogEntry", "IPFSLogLamportClock"} {
